@@ -1,8 +1,167 @@
-//! C05 runner (stub). Replace the body; keep the signature `pub fn run(args: &[String])`.
-#[allow(unused_imports)]
-use crate::common::{catch, each_line, opt_i64};
+//! C05 runner: indexing, slicing, range, dict lookup, slice syntax — the real helpers.
+//! Input lines (space separated; lists are comma separated, `-` = empty; `N` = None):
+//!   lslice <ints> <s> <e> <k>      sslice <codepoints> <s> <e> <k>
+//!   lget <ints> <i>                sidx <codepoints> <i>
+//!   range <a> <b> <c> <n>          dget <k:v,...> <key>
+//!   parse <incan expression text (rest of line)>
+//! Output: `0 <values>` | `1` IndexError | `2` slice ValueError | `3` range ValueError |
+//!         `4` KeyError | `5 <k> <msg>` other panic | `TIMEOUT`.
+use crate::common::{catch, each_line_watchdog, opt_i64};
+use std::collections::HashMap;
+
+fn ints(s: &str) -> Vec<i64> {
+    if s == "-" { vec![] } else { s.split(',').map(|x| x.parse().expect("int")).collect() }
+}
+
+fn text(s: &str) -> String {
+    ints(s).into_iter().map(|c| char::from_u32(c as u32).expect("scalar")).collect()
+}
+
+fn join(v: &[i64]) -> String {
+    if v.is_empty() { "-".to_string() } else { v.iter().map(|x| x.to_string()).collect::<Vec<_>>().join(",") }
+}
+
+fn classify(msg: &str, index_text: &str) -> String {
+    if msg == index_text {
+        "1".into()
+    } else if msg == "ValueError: slice step cannot be zero" {
+        "2".into()
+    } else if msg == "ValueError: range() arg 3 must not be zero" {
+        "3".into()
+    } else if msg.contains("overflow") {
+        format!("5 0 {}", msg)
+    } else if msg.contains("assertion") || msg.contains("out of bounds") || msg.contains("index normalized") {
+        format!("5 2 {}", msg)
+    } else {
+        format!("5 9 {}", msg)
+    }
+}
 
 pub fn run(_args: &[String]) {
-    eprintln!("c05: runner not implemented");
-    std::process::exit(2);
+    each_line_watchdog(3000, |line| {
+        let (op, rest) = line.split_once(' ').unwrap_or((line, ""));
+        let p: Vec<&str> = rest.split(' ').collect();
+        match op {
+            "lslice" => {
+                let v = ints(p[0]);
+                let (s, e, k) = (opt_i64(p[1]), opt_i64(p[2]), opt_i64(p[3]));
+                match catch(|| incan_stdlib::collections::list_slice(&v, s, e, k)) {
+                    Ok(r) => format!("0 {}", join(&r)),
+                    Err(m) => classify(&m, ""),
+                }
+            }
+            "sslice" => {
+                let t = text(p[0]);
+                let (s, e, k) = (opt_i64(p[1]), opt_i64(p[2]), opt_i64(p[3]));
+                let a = match catch(|| incan_stdlib::strings::str_slice(&t, s, e, k)) {
+                    Ok(r) => format!("0 {}", join(&r.chars().map(|c| c as i64).collect::<Vec<_>>())),
+                    Err(m) => classify(&m, ""),
+                };
+                // the semantic core (used by the compiler's const evaluation) must agree
+                let b = match catch(|| incan_core::strings::str_slice(&t, s, e, k)) {
+                    Ok(Ok(r)) => format!("0 {}", join(&r.chars().map(|c| c as i64).collect::<Vec<_>>())),
+                    Ok(Err(err)) => classify(&err.to_string(), "IndexError: string index out of range"),
+                    Err(m) => classify(&m, ""),
+                };
+                if a == b { a } else { format!("9 stdlib={} core={}", a, b) }
+            }
+            "lget" => {
+                let v = ints(p[0]);
+                let i: i64 = p[1].parse().expect("i");
+                let want = format!("IndexError: index {} out of range for list of length {}", i, v.len());
+                match catch(|| *incan_stdlib::collections::list_get(&v, i)) {
+                    Ok(r) => format!("0 {}", r),
+                    Err(m) => classify(&m, &want),
+                }
+            }
+            "sidx" => {
+                let t = text(p[0]);
+                let i: i64 = p[1].parse().expect("i");
+                match catch(|| incan_stdlib::strings::str_index(&t, i)) {
+                    Ok(r) => format!("0 {}", join(&r.chars().map(|c| c as i64).collect::<Vec<_>>())),
+                    Err(m) => classify(&m, "IndexError: string index out of range"),
+                }
+            }
+            "range" => {
+                let (a, b, c): (i64, i64, i64) = (p[0].parse().unwrap(), p[1].parse().unwrap(), p[2].parse().unwrap());
+                let n: usize = p[3].parse().unwrap();
+                match catch(|| {
+                    let mut it = incan_stdlib::iter::range(a, b, c);
+                    let mut out = Vec::new();
+                    let mut fin = false;
+                    for _ in 0..n {
+                        match it.next() {
+                            Some(v) => out.push(v),
+                            None => {
+                                fin = true;
+                                break;
+                            }
+                        }
+                    }
+                    if !fin {
+                        fin = it.next().is_none();
+                    }
+                    (out, fin)
+                }) {
+                    Ok((out, fin)) => format!("0 {} {}", if fin { 1 } else { 0 }, join(&out)),
+                    Err(m) => classify(&m, ""),
+                }
+            }
+            "dget" => {
+                let mut map: HashMap<i64, i64> = HashMap::new();
+                if p[0] != "-" {
+                    for kv in p[0].split(',') {
+                        let (k, v) = kv.split_once(':').unwrap();
+                        map.insert(k.parse().unwrap(), v.parse().unwrap());
+                    }
+                }
+                let key: i64 = p[1].parse().unwrap();
+                let want = format!("KeyError: '{}' not found in dict", key);
+                match catch(|| *incan_stdlib::collections::dict_get(&map, &key)) {
+                    Ok(r) => format!("0 {}", r),
+                    Err(m) => {
+                        if m == want { "4".into() } else { format!("5 9 {}", m) }
+                    }
+                }
+            }
+            "parse" => parse_shape(rest),
+            _ => "bad-op".into(),
+        }
+    });
+}
+
+/// Parse `v = s[<text>]` with the real lexer+parser and report the index/slice shape.
+fn parse_shape(inner: &str) -> String {
+    use incan_syntax::ast::{Declaration, Expr, Statement};
+    let src = format!("def f(s: str) -> None:\n    v = s[{}]\n", inner);
+    let r = catch(|| {
+        let tokens = match incan_syntax::lexer::lex(&src) {
+            Ok(t) => t,
+            Err(_) => return "ERR lex".to_string(),
+        };
+        let prog = match incan_syntax::parser::parse(&tokens) {
+            Ok(p) => p,
+            Err(_) => return "ERR parse".to_string(),
+        };
+        for d in &prog.declarations {
+            if let Declaration::Function(f) = &d.node {
+                for st in &f.body {
+                    if let Statement::Assignment(a) = &st.node {
+                        return match &a.value.node {
+                            Expr::Index(_, _) => "I".to_string(),
+                            Expr::Slice(_, sl) => format!(
+                                "S {} {} {}",
+                                sl.start.is_some() as u8,
+                                sl.end.is_some() as u8,
+                                sl.step.is_some() as u8
+                            ),
+                            other => format!("OTHER {:?}", std::mem::discriminant(other)),
+                        };
+                    }
+                }
+            }
+        }
+        "ERR shape".to_string()
+    });
+    r.unwrap_or_else(|m| format!("PANIC {}", m))
 }
